@@ -396,6 +396,18 @@ func planWriterCases(w *cq.Writer, rng *rand.Rand, runs, nbatches int) error {
 // planHistoryIndependence: "the tasks are the same for the same input" also when other inputs were planned in
 // between with the SAME *Options value (or with nil options, i.e. the package default): plan(B), plan(A),
 // plan(B) and plan(B) with a fresh copy of the options must agree on B.
+var planPristineDefault = mergeplan.DefaultMergePlanOptions // captured before any Plan call of this process
+
+// planDirect calls mergeplan.Plan with exactly the *Options value given (planCall works on a copy).
+func planDirect(segs []*planSeg, o *mergeplan.Options) *mergeplan.MergePlan {
+	var p *mergeplan.MergePlan
+	fin, pan := cq.Guard(planGuard, func() { p, _ = mergeplan.Plan(planIface(segs), o) })
+	if !fin || pan != nil {
+		return nil
+	}
+	return p
+}
+
 func planHistoryIndependence(w *cq.Writer, rng *rand.Rand, n int) {
 	mk := func(k int, lo, hi int64, idBase uint64) []*planSeg {
 		segs := make([]*planSeg, k)
@@ -442,16 +454,17 @@ func planHistoryIndependence(w *cq.Writer, rng *rand.Rand, n int) {
 			alo = half - 1
 		}
 		A := mk(5+rng.Intn(20), alo, half-1, 1000)
-		var wantFresh *mergeplan.MergePlan
-		if shared != nil {
-			wantFresh = planCall(B, fresh, false).plan
+		if shared == nil {
+			c := planPristineDefault
+			fresh = &c
 		}
-		r1 := planCall(B, shared, false)
-		planCall(A, shared, false)
-		r2 := planCall(B, shared, false)
+		wantFresh := planDirect(B, fresh)
+		r1 := planDirect(B, shared)
+		planDirect(A, shared)
+		r2 := planDirect(B, shared)
 		w.OracleEval(1)
 		input := map[string]interface{}{"options": fmt.Sprintf("%+v", eff), "nil_options": shared == nil, "B": planMetaSegs(B), "A": planMetaSegs(A)}
-		if !planSameTasks(r1.plan, r2.plan) || (shared != nil && !planSameTasks(r1.plan, wantFresh)) {
+		if !planSameTasks(r1, r2) || !planSameTasks(r2, wantFresh) {
 			w.OracleFail("plan-depends-on-history", "Plan(B) differs after Plan(A) was called with the same *Options (or nil options)", input)
 		}
 		w.Count("history_independence_triples", 1)
